@@ -341,8 +341,7 @@ def run(tier='quick'):
                         'library refuse when any file the load side probes or demands is already present (rule X5 of C12: '
                         'otherwise a second create leaves both layouts in the directory, load reports "not found" and '
                         'create-or-load creates over a library)', floor=2)
-    from . import c12 as _c12
-    _c12.creators_refuse_existing(prog, chk, N7)
+    c16.creators_refuse_existing(prog, cg, eff, chk, N7)
     return chk.finish('declarations of %d handle / table / context classes, all statement sites, symbolic paths of '
                       'the open / attach sites of the create and load sides, transaction path analysis, version '
                       'constants of the creators' % len(STATELESS + CONTEXT))
